@@ -675,6 +675,7 @@ func c06GenCase(r *Rng, g c06Gen) *C06Input {
 			op.States = []int{state()}
 			op.Fn = []string{"active", "inactive", "tickge", "tickge", "never", "always"}[r.Intn(6)]
 			op.N = uint64(r.Intn(int(maxTick) + 3))
+			op.Ctx = ctx()
 		case "whenqueue":
 			op.N = uint64(r.Range(1, int(maxQ)+3))
 		case "whenqueueends":
@@ -774,9 +775,9 @@ func c06GenCase(r *Rng, g c06Gen) *C06Input {
 			op := C06Op{Pos: "call", At: r.Intn(nCalls + 1)}
 			switch r.Intn(3) {
 			case 0:
-				// WhenQuery with a context (never cancelled, condition never true: only
-				// the registration is observed)
-				op.Kind, op.Fn, op.Ctx, op.States = "whenquery", "never", 4, []int{0}
+				// WhenQuery with a context that is never cancelled (panicked before the
+				// fix of whenQueryCtx)
+				op.Kind, op.Fn, op.Ctx, op.States = "whenquery", []string{"never", "active"}[r.Intn(2)], 4, []int{0}
 			case 1:
 				op.Kind, op.States = []string{"when", "whennot"}[r.Intn(2)], []int{r.Intn(n), n + r.Intn(3)}
 			case 2:
